@@ -114,7 +114,7 @@ static void proj(FILE *f, const vrt_rec_t *r)
 	case VRT_ATOMIC: {
 		const char *op = r->site->dvs_op;
 		const char *e = !strcmp(op, "add") ? "Inc" : !strcmp(op, "sub") ? "Dec" :
-				!strcmp(op, "cmpxchg") ? "Cas" : "Unknown";
+				!strcmp(op, "cmpxchg") ? "Cas" : !strcmp(op, "load") ? "Load" : "Unknown";
 		fprintf(f, "{\"e\":\"%s\",\"t\":%d,\"old\":%ld,\"new\":%ld,\"ok\":%d,\"mo\":\"%s\",\"site\":\"%s:%d\"}\n",
 				e, r->tid, (long)r->oldv, (long)r->newv, r->ok, r->site->dvs_mo, r->site->dvs_func,
 				r->site->dvs_line);
